@@ -792,6 +792,20 @@ class Discharger:
                 if idx[0] == "const" and idx[1] in keys:
                     return "D5 constant key present in the literal dict"
         if base[0] == "gvar":
+            # module-level dict literal (never mutated: C17 inventory / W1) keyed by a whole enum
+            try:
+                mod_, _, name_ = base[1].rpartition(".")
+                gv = ctx.ev.global_value(ctx.prog.modules[mod_], name_)
+                if gv[0] == "dict":
+                    keys = [ctx.fold.fold(k) for k, v in gv[1]]
+                    t = self.static_type(idx, ob)
+                    c = ctx.prog.classes.get(t[1]) if t is not None and t[0] == "inst" else None
+                    if c is not None and c.is_enum() and all(m in keys for m in ctx.fold.enum_table(c).members()):
+                        from .effects_lib import module_object_is_mutated
+                        if not module_object_is_mutated(ctx, base[1]):
+                            return "D5 module-level dict literal, never mutated, whose keys cover the enum"
+            except (NotConstant, KeyError):
+                pass
             # module-level table indexed by a Literal-typed name: every literal value is a key
             ann = None
             if idx[0] in ("param", "free"):
